@@ -13,6 +13,12 @@
 #include <deque>
 #include <memory>
 
+// VERIF_KNOWN=1 (set by the driver when it replays pinned cases) disables every exclusion of a known finding; VERIF_KNOWN=K5 only that one
+#ifndef VERIF_KNOWN_ENABLED_DEFINED
+#define VERIF_KNOWN_ENABLED_DEFINED
+static inline bool known_enabled(const char *tag) { const char *e = getenv("VERIF_KNOWN"); return e && (!strcmp(e, "1") || strstr(e, tag)); }
+#endif
+
 namespace ses {
 using namespace hz;
 using scn::fmt;
@@ -62,6 +68,7 @@ struct Peer {
 	std::deque<Bytes> up_queue; Bytes up_z; size_t up_off = 0; int up_frag = 0; bool up_active = false;
 	int up_next_to = -1; size_t up_force_first = 0;
 	int merge_stage = 0; bool merge_lose_first = false; Bytes merge_next; std::string stray_name; int stray_seq = 0; std::vector<Bytes> up_abandoned;   // C01 merge game (see do_up)
+	bool restart_partner = false; std::string late_name; int late_seq = -1;   // C02 restart oracle / C01 late-fragment game (see do_up)
 	Bytes up_cur_pkt; int up_cur_to = -1;   // peer index the current upstream packet is addressed to (client-to-client), -1 the server
 	std::vector<Bytes> up_completed;
 	size_t absorbed = 0;
@@ -93,7 +100,8 @@ struct Run {
 	// statistics for the non-trivial rules
 	int n_redeliver = 0, n_red_cache = 0, n_red_qmem = 0, n_red_pending = 0, n_red_lastfrag = 0, n_red_case = 0, n_red_otheraddr = 0;
 	int n_multi3 = 0, n_nreq_ok = 0, n_badfrag = 0, n_dup_twice = 0, n_realsoon = 0, n_tun_via_held = 0, n_long = 0;
-	int n_cache_same = 0, n_trunc = 0, n_lost_answers = 0, n_giveup = 0, n_raw = 0, n_recycled = 0, n_recycled_same_name = 0, n_recycled_data_before_n = 0, n_c2c = 0, n_red_altdomain = 0, n_qr = 0, n_hsreq = 0, n_wrap = 0, n_merge = 0, n_glue = 0, n_infra = 0, n_merge_lost_first = 0, n_excluded_k4 = 0, n_stray = 0;
+	int n_cache_same = 0, n_trunc = 0, n_lost_answers = 0, n_giveup = 0, n_raw = 0, n_recycled = 0, n_recycled_same_name = 0, n_recycled_data_before_n = 0, n_c2c = 0, n_red_altdomain = 0, n_qr = 0, n_hsreq = 0, n_wrap = 0, n_merge = 0, n_glue = 0, n_infra = 0, n_merge_lost_first = 0, n_excluded_k4 = 0, n_stray = 0, n_late = 0, n_excluded_k5 = 0;
+	std::vector<Bytes> must_deliver;   // packets the server accepted a fresh start of (a different first fragment under the same sequence number) and then received completely
 	uint64_t n_data_emits = 0;
 	std::map<int, std::pair<int, Bytes>> c2c_on_delivery;   // last-fragment query record -> (receiving peer, packet): registered in the receiver's stream when the server reads that query
 	uint64_t t_last_sent = 0;    // when the harness last handed a query to the network
@@ -448,7 +456,7 @@ struct Engine {
 			}
 			p.up_cur_pkt = p.up_queue.front(); p.up_queue.pop_front(); p.up_cur_to = p.up_next_to; p.up_next_to = -1;
 			p.up_z = refproto::zcompress(p.up_cur_pkt); p.up_off = 0; p.up_frag = 0; p.up_active = true;
-			p.up_force_first = 0;
+			p.up_force_first = 0; p.restart_partner = false;
 			bool wrap = false;
 			if (P.wrap_games && p.merge_stage < 2 && p.up_cur_to < 0 && !p.up_completed.empty() && t.chance(1, 4)) {
 				// Seven packets of this client were lost entirely (the server saw nothing of them), so this one carries the sequence
@@ -511,8 +519,9 @@ struct Engine {
 				// an earlier ping)?  Then nothing tells the server that the fragment it holds belongs to another packet: known finding K4,
 				// excluded by construction unless the driver replays the pinned case.
 				p.merge_lose_first = t.chance(1, 2);
-				if (p.merge_lose_first && !getenv("VERIF_KNOWN")) { p.merge_lose_first = false; R.n_excluded_k4++; }
+				if (p.merge_lose_first && !known_enabled("K4")) { p.merge_lose_first = false; R.n_excluded_k4++; }
 				if (p.merge_lose_first) R.n_merge_lost_first++;
+				p.restart_partner = !p.merge_lose_first;
 				sim::W.run_for(28000000);
 				note(fmt("peer%d: seven packets lost entirely; next packet (Adler-equivalent partner of the abandoned one, %zu bytes) re-uses sequence number %d", peer_index(p), p.up_cur_pkt.size(), p.sc.up_seq));
 			} else if (!wrap && P.wrap_games && p.merge_stage == 0 && p.up_cur_to < 0 && t.chance(1, 4)) {
@@ -527,11 +536,29 @@ struct Engine {
 					Bytes za = refproto::zcompress(A), zb = refproto::zcompress(B);
 					if (ok && za.size() == A.size() + 11 && zb.size() == B.size() + 11 && !memcmp(za.data() + 7, A.data(), A.size()) && !memcmp(zb.data() + 7, B.data(), B.size())) {
 						p.up_cur_pkt = A; p.up_z = za; p.up_force_first = F; p.merge_next = B; p.merge_stage = 1;
+						// Late-fragment game (one start in three): nothing is lost.  A is sent and acknowledged completely, but a first copy of its
+						// last fragment (other cache-miss counter, so the server does not know the name) is held up in the network until the sender
+						// is eight packets further on, and arrives between the two fragments of B, which now has A's sequence number.  Nothing the
+						// server sees tells the copy from B's second fragment: known finding K5, excluded by construction unless the driver
+						// replays the pinned case.
+						if (t.chance(1, 3)) { if (known_enabled("K5")) p.merge_stage = 5; else R.n_excluded_k5++; }
 					}
 				}
 			}
 			if (p.merge_stage == 4) p.merge_stage = 0;
 			if (!wrap) p.sc.up_seq = (p.sc.up_seq + 1) & 7;
+			if (p.merge_stage == 6 && p.sc.up_seq == p.late_seq && p.up_cur_to < 0) {
+				p.up_cur_pkt = p.merge_next; p.up_z = refproto::zcompress(p.up_cur_pkt); p.up_force_first = up_chunk_cap(p); p.merge_stage = 7;
+				note(fmt("peer%d: eight packets on; this packet (Adler-equivalent partner, %zu bytes) has sequence number %d again", peer_index(p), p.up_cur_pkt.size(), p.sc.up_seq));
+			}
+		}
+		if (p.merge_stage == 7 && p.up_off > 0) {
+			sim::W.run_for(30000);
+			uint16_t id = p.sc.send_name(p.late_name);
+			record(p, id, false, -1, p.sc.addr, p.late_name, refproto::qtype_of(p.sc.qtype_k));
+			note(fmt("peer%d: the held-up copy of the last fragment of the packet that had sequence number %d eight packets ago arrives now", peer_index(p), p.late_seq));
+			p.late_name.clear(); p.merge_stage = 0; R.n_late++;
+			sim::W.run_for(30000);
 		}
 		size_t cap = up_chunk_cap(p);
 		size_t n = std::min(p.up_z.size() - p.up_off, (size_t)(t.chance(1, 3) ? 1 + t.below((uint32_t)cap) : cap));
@@ -559,10 +586,14 @@ struct Engine {
 			p.stray_name = refproto::name_data(p.sc.userid, p.sc.up_seq, p.up_frag, p.sc.dn_seq, p.sc.dn_frag, last, cm[(p.sc.data_cmc + 11) % 36], p.sc.up_codec, chunk, p.sc.domain);
 			p.stray_seq = p.sc.up_seq;
 		}
+		if (last && p.merge_stage == 5) {
+			p.late_name = refproto::name_data(p.sc.userid, p.sc.up_seq, p.up_frag, p.sc.dn_seq, p.sc.dn_frag, last, cm[(p.sc.data_cmc + 17) % 36], p.sc.up_codec, chunk, p.sc.domain);
+			p.late_seq = p.sc.up_seq; p.merge_stage = 6;
+		}
 		if (last && p.up_cur_to >= 0) R.c2c_on_delivery[qi] = std::make_pair(p.up_cur_to, p.up_cur_pkt);   // the receiver's downstream stream will carry it from the moment the server has read this query
 		note(fmt("peer%d data id=%u up=%d/%d last=%d %zuB ack=%d/%d", peer_index(p), id, p.sc.up_seq, p.up_frag, (int)last, n, p.sc.dn_seq, p.sc.dn_frag));
 		p.up_off += n; p.up_frag++;
-		if (last) { p.up_active = false; p.up_completed.push_back(p.up_cur_pkt); }
+		if (last) { p.up_active = false; p.up_completed.push_back(p.up_cur_pkt); if (p.restart_partner) { R.must_deliver.push_back(p.up_cur_pkt); p.restart_partner = false; } }
 		else if (p.merge_stage == 1) {
 			// the acknowledgement never arrives: repeat the fragment as the client does (new cache-miss counter, up to three times), then give the packet up
 			int rep = (int)t.below(4);
